@@ -152,6 +152,80 @@ M.update({
    strengthened="C20: collectBinning over the implementation's own binning values, twice; the parts must stay unchanged and both sums equal the binning of the whole"),
 })
 
+# ---- third round: the sub-agent was told about both earlier changes and asked for an untouched clause ----
+M.update({
+ "C01c": dict(change="funcGen/generator.go MethodCall: on the closure-field path the receiver is no longer pushed before the arguments are evaluated",
+   needs="a closure stored in a map called with method syntax m.f(...), an argument that declares a non-constant local (let y = x*2; y) and reads it: the local is read one slot off",
+   demo=("value", "TestC01c"), ran=["C01", "C16"], first="caught by C01 quick (exemplar F1-let-in-map-field-closure-arg and the search) and C16 quick", strengthened=""),
+ "C02c": dict(change="funcGen/optimizer.go: the arity guard of the constant-closure call folding only rejects too few arguments",
+   needs="a constant closure without captures, not recursive, applied to constant arguments, at least one too many: folded to a value, the unoptimized program reports the wrong number of arguments",
+   demo=("value", "TestC02c"), ran=["C02", "C01"], first="caught by C02 quick and C01 quick (ill-typed calls are generated in 20 % of the programs)", strengthened=""),
+ "C03c": dict(change="parser2.go parseLiteral: only a wrong KEYWORD in the else position is rejected, any other token is swallowed as if it were else",
+   needs="an else branch that starts with a token that can be dropped and still leave an expression: a pure prefix operator (if c then a else !b with else deleted), or a comma inside a list or call",
+   demo=(".", "TestC03c"), ran=["C03"], first="caught by C03 quick (token mutations: a deleted else in front of a lambda/prefix form is accepted)", strengthened=""),
+ "C04c": dict(change="funcGen/optimizer.go: constant-if folding returns nil instead of the unchanged AST when the constant condition is no bool",
+   needs="a complete if whose condition folds to a constant that toBool refuses (if 1 then 2 else 3): Parse returns neither AST nor error, a nested one panics in Generate",
+   demo=("value", "TestC04c"), ran=["C04", "C01", "C02"], first="caught by C04 quick (panic of Generate on a mutated valid program); C01/C02 do not generate ill-typed constant conditions", strengthened=""),
+ "C05c": dict(change="funcGen/optimizer.go: same arity guard as C02c (seeded independently)",
+   needs="a constant pure closure applied to constant arguments, one too many: a value instead of an error; try does not see a fault",
+   demo=("value", "TestC05c"), ran=["C05", "C02"], first="caught by C05 quick (call fault sources: closures applied to boundary argument lists) and C02 quick", strengthened=""),
+ "C06c": dict(change="value/list.go deepEvalLists: in the map branch the error of a nested list is assigned to a shadowed variable and lost",
+   needs="a multiUse consumer whose result is a map (or a list holding a map) with a lazy list derived from the multiUse list, and an element that fails while multiUse forces it: multiUse succeeds with an empty list where sequential evaluation fails",
+   demo=("value", "TestC06c"), ran=["C06", "C07"], first="missed by C06 and C07 (multiUse consumers only returned scalars and lists)",
+   strengthened="pipes/C06: terminal multiUseNested - consumers return {x: lazy list}, {k:1, m:{x: lazy list}}, [{x: lazy list}, 7] with the failing closure inside"),
+ "C07c": dict(change="value/list.go MovingWindow: the windows keep spare capacity reaching into the receiver's backing array",
+   needs="append on a window that is not the last one (l.movingWindow(f).map(w->w.append(k))): the appended item overwrites the neighbour behind the window in the source and in the other windows",
+   demo=("value", "TestC07c"), ran=["C07", "C09"], first="missed by C07 and C09 (windows were only measured, never appended to)",
+   strengthened="C07: what is done with each window includes append/append-append/set; C09: operations movingWindowAppend, movingWindowRemoveAppend, combineNAppend, groupValuesAppend (sub-lists a built-in hands out are lists of their own)"),
+ "C08c": dict(change="value/operations.go Add: two lists whose sizes are known and small are concatenated into a materialised list at once",
+   needs="a + of a lazy list with known size (numbers(n).map(...)) and another list of known size, together at most 16 items: building the pipeline evaluates every closure, consumers behind the + see full demand and later errors",
+   demo=("value", "TestC08c"), ran=["C08"], first="caught by C08 quick (pipeline only built: calls must be 0; demand bound)", strengthened=""),
+ "C09c": dict(change="value/list.go CombineN: when the ring buffer is already in order it is wrapped without a copy",
+   needs="a combineN function that retains the window (returns it, stores it) and a source longer than n: every n-th window shares the ring buffer and changes later",
+   demo=("value", "TestC09c"), ran=["C09", "C07"], first="caught by C09 quick (exemplar F9-combineN-windows-alias-one-buffer and the search); C07 uses the windows at once and does not see it", strengthened=""),
+ "C10c": dict(change="value/list.go Compact: lastPublished is declared once per list instead of once per iteration",
+   needs="a compact list that outlives an evaluation and is iterated again by a consumer that does not cache it (~, indexWhere, map ...) after an iteration that ended on an item equal to its first item: the first item is dropped",
+   demo=("value", "TestC10c"), ran=["C10", "C07", "C09"], first="missed by C10 (the program generator had no compact); caught by C07 (second evaluation with the same argument objects, added one round earlier) and C09",
+   strengthened="lang generator: compact with an equivalence relation (equal, equal modulo 2)"),
+ "C11c": dict(change="funcGen/generator.go Func.Eval: the evaluation stack is the caller's variadic slice itself instead of a copy",
+   needs="an argument slice with spare capacity (rows of one argument table, a reused buffer), a program that pushes behind its arguments, and evaluations on the same or an adjacent slice: they overwrite each other's locals and the caller's table",
+   demo=("value", "TestC11c"), ran=["C11", "C10"], first="missed by C11 and C10 (every evaluation got a freshly made argument slice)",
+   strengthened="C10: with reuse_args the tuples of a program are rows of ONE table and the rows are passed (capacity reaching over the following rows); C11: arg_table - the arguments of all goroutines are rows of one table"),
+ "C12c": dict(change="value/list.go guardProducer: an operand that delivers an error is no longer stopped behind that error",
+   needs="a merge operand that fails at some item and has a long tail behind it: the evaluation returns the error, the operand is pulled to its end in the background",
+   demo=("value", "TestC12c"), ran=["C12", "C05"], first="missed by C12 and C05 (sources of at most 1500 items drain within the grace period)",
+   strengthened="C12: job error_path - merge operands/receivers that fail at the 3rd/4th item with 4 000 000 items behind them; 150 ms after the evaluation returned their counting closure must have stopped"),
+ "C13c": dict(change="value/wrapper.go ToMap.Attr: iteration order is kept in a name slice to which a name registered again is appended again",
+   needs="a NewToMap wrapper with an attribute name registered twice: Iter visits the key twice (list(), string(), export), Get and Size see it once",
+   demo=("value", "TestC13c"), ran=["C13"], first="missed by C13 (attribute sets were de-duplicated before registration)",
+   strengthened="C13: struct wrapper attributes are registered as drawn; a later registration of a name overrides the earlier one in the model"),
+ "C14c": dict(change="value/value.go New(): <= and >= test equality first (variant of C05b, seeded independently)",
+   needs="equal operands of a type without order (bool, list, map): true instead of an error",
+   demo=("value", "TestC14c"), ran=["C14", "C05"], first="caught by C14 quick and C05 quick", strengthened=""),
+ "C15c": dict(change="token.go run: a line feed no longer sets lastWasBlank",
+   needs="comfort mode, an identifier and only line feeds (or a line comment) in front of '(': a\\n(b+1) parses as the call a(b+1) instead of a*(b+1)",
+   demo=(".", "TestC15c"), ran=["C15", "C19"], first="missed by C15 and C19 (juxtaposed factors were only set off by one blank)",
+   strengthened="C15 juxtaposition: the separator between juxtaposed factors is any white space (blank, LF, LF LF, tab, CR LF, CR, mixed); four exemplars"),
+ "C16c": dict(change="funcGen/generator.go GenerateWithMap: the identifier resolver is cached per map name and never invalidated",
+   needs="on one generator: GenerateWithMap with map name X, then AddConstant(k), then GenerateWithMap with X again and a map that has an attribute k: implicit mode reads the attribute instead of the constant",
+   demo=("value", "TestC16c"), ran=["C16"], first="missed by C16 (constants were fixed when the generator was made)",
+   strengthened="C16: late_constant - in a fifth of the cases a generator of its own first generates a function with the map name, then an attribute name of the program is registered as a constant; the reference and the explicit form treat it as the constant"),
+ "C17c": dict(change="value/export/json.go jsonListExporter.Add: numbers that are direct list items are written as shortest float strings",
+   needs="an Int of magnitude >= 1 000 000 as a direct list item: 1e+06 instead of 1000000 (digits lost above 2^53)",
+   demo=("value/export", "TestC17c"), ran=["C17"], first="caught by C17 quick (large ints are generated)", strengthened=""),
+ "C18c": dict(change="xmlWriter.writeEsc: strings without markup characters are written as they are",
+   needs="a string with CR (or tab/LF/CR in an attribute) and none of < > & ' \": the white space is not written as a character reference and does not decode back",
+   demo=("value/export", "TestC18c"), ran=["C18"], first="caught by C18 quick (exemplar F22-carriage-return-in-text and the search)", strengthened=""),
+ "C19c": dict(change="funcGen/generator.go argsList.copyAndAdd: the redeclaration check of let compares against an empty copy and never fires",
+   needs="two nested lets with the same name whose values are both non-constant: accepted, and the inner use reads the outer slot (let x=a; let x=b; x gives a)",
+   demo=("example", "TestC19c"), ran=["C19", "C01"], first="missed by C19 and C01 (generators never declare a name twice in one function body: the unchanged tree rejects that)",
+   strengthened="C19: enumerated forms let x=E1; let x=E2; E3 - every generator either rejects them as redeclaration or the inner declaration is the one in scope"),
+ "C20c": dict(change="value/binning.go getDescr: the bin bounds are rounded to nks(size)+2 decimals",
+   needs="a grid whose exact bounds have more decimals: a fine size (1/64) or a start much finer than the size (0.0625 with size 1): min/max of the description no longer match the bin",
+   demo=("value", "TestC20c"), ran=["C20"], first="missed by C20 (axes started on a 1/4 grid with sizes >= 1/8)",
+   strengthened="C20: a quarter of the axes are fine grids: start on a 1/1024 grid, sizes 1/64, 1/256, 1/1024"),
+})
+
 def results():
     res = {}
     p = "/verif/seeded/RESULTS.txt"
